@@ -75,3 +75,7 @@ Proof. induction n as [|n IH]; [reflexivity|]. cbn [of_nat]. rewrite IH.
 Lemma QcF_char0 : char0 QcF.
 Proof. intros n H. rewrite QcF_of_nat in H. change (@k0 QcF) with (Q2Qc 0) in H.
   apply Q2Qc_eq_iff in H. unfold Qeq, inject_Z in H. cbn [Qnum Qden] in H. lia. Qed.
+
+(* integers in a field (for literal tables of the source) *)
+Definition of_Z {F : fld} (z : Z) : F :=
+  match z with Z0 => k0 | Zpos p => of_nat (Pos.to_nat p) | Zneg p => kopp (of_nat (Pos.to_nat p)) end.
